@@ -129,6 +129,22 @@ pub fn check_c17(l: &Ledger, entries: &[(String, String)], spec: &PropSpec) -> V
     let mut rejected_steps: Vec<usize> = vec![];
     // transactions whose time-out reason may legitimately differ (documented marker)
     let mut relax: BTreeSet<usize> = BTreeSet::new();
+    // a request-class message is one of the buffers the client rejects, whatever id it carries
+    for st in &l.steps {
+        if let (Call::Recv { bytes, fault, .. }, CallResult::Ok) = (&st.call, &st.result) {
+            if let Ok(p) = wire::parse(bytes) {
+                if p.class == wire::C_REQUEST && crate::libtap::decodes(bytes) {
+                    let own = l.txs.iter().any(|t| t.id == p.txid && t.gen == st.gen && t.awaiting_before(st.idx));
+                    out.push(v(
+                        "C17",
+                        format!("C17/request-class-buffer-accepted({})", if own { "id-of-outstanding-request" } else { "foreign-id" }),
+                        st.idx,
+                        format!("step {}: a request-class message was not rejected [{}]: {:?}", st.idx, fault, st.events),
+                    ));
+                }
+            }
+        }
+    }
     for st in &l.steps {
         let (Call::Recv { bytes, origin, .. }, CallResult::Err(_)) = (&st.call, &st.result) else { continue };
         if !st.events.is_empty() {
